@@ -16,6 +16,9 @@ def run(ctx):
     ctx.assumptions = ['soundness/unforgeability and acceptance for the right message are cryptographic value-level facts, not decided']
     from .. import schemespec
     for cfg, prog in ctx.programs().items():
+        from .. import inbounds
+        ni = inbounds.rule_inbounds(ctx, cfg, prog, only=['sign_precomputed', 'precompute'])
+        ctx.floor('R-INBOUNDS cursor-selected accesses[%s]' % cfg, ni, 3)
         schemes.rule_signature_structure(ctx, cfg, prog)
         schemes.rule_delegation(ctx, cfg, prog)
         ns = schemespec.rule_scheme(ctx, cfg, prog, which=['sign_precomputed', 'verify_precomputed', 'precompute'])
